@@ -246,7 +246,10 @@ def _output_check(k, bits, fmt, nullvalue):
     if fmt == 'text' and not rows:
         want.write('(empty)\n')
     else:
-        bshell.FORMATS[fmt](desc, rows, want, dcontext=dcontext, **settings)
+        # the API renderers themselves (not the shell's format adapters)
+        from beanquery import query_render
+        render = {'text': query_render.render_text, 'csv': query_render.render_csv}[fmt]
+        render(desc, rows, dcontext, want, **settings)
     if out != want.getvalue():
         return 'shell-output-differs-from-rendered-api-result'
     return 'ok'
